@@ -12,7 +12,7 @@ From BV Require Import Base.Prelude Model.Block Model.ForkDB Model.Forkable Mode
   Proofs.Fk.MovingLibInv Proofs.Fk.MovingLibFin Proofs.Fk.MovingLibDisc
   Proofs.Hub.StepFields Proofs.Hub.ConsFacts Proofs.Hub.StepStore Proofs.Hub.Retention Proofs.Hub.StepIrr
   Proofs.Hub.HubInv Proofs.Hub.HubRun Proofs.Hub.HubFed Proofs.Hub.LinkedRuns Proofs.Hub.CursorLife
-  Proofs.C09_Store Proofs.C09_Segment Proofs.C09_Proofs Spec.C05_Spec
+  Proofs.C09_Store Proofs.C09_Segment Proofs.C09_Proofs Spec.C05_Spec Proofs.C05_Fast Proofs.C05_Forked Proofs.Hub.C09_History
   Proofs.C07_ComposeStack.
 Local Open Scope N_scope.
 
@@ -242,6 +242,76 @@ Section HubV.
       + apply Forall_forall. intros e He _. rewrite Forall_forall in HallU.
         apply HallU. rewrite <- HQn. apply in_or_app. right. apply in_map. exact He.
       + eapply Forall_impl; [|exact HsQ]. cbn beta. intros e [He|He] Hm; rewrite He in Hm; discriminate.
+  Qed.
+
+  (* ------------------------------------------------------------------ the same with the final part explicit *)
+
+  Definition VStateX (a : block) (Fin A : list block) (s : fstate) (V : list block) : Prop :=
+    exists S c, Post a s Fin S c /\ Rooted a Fin A /\ V = S ++ rev A.
+
+  Lemma vstatex_vstate a Fin A s V : VStateX a Fin A s V -> VState s V.
+  Proof. intros (S & c & H). exists a, Fin, S, c, A. exact H. Qed.
+
+  Lemma vstate_x s V : VState s V -> exists a Fin A, VStateX a Fin A s V.
+  Proof. intros (a & Fin & S & c & A & H). exists a, Fin, A, S, c. exact H. Qed.
+
+  (* the final part only grows *)
+  Lemma vstatex_step a Fin A s V b : VStateX a Fin A s V -> In b U ->
+    exists s' evs Fnew V', fk_step cfg s b = (s', evs, ROk) /\ VStateX a (Fin ++ Fnew) A s' V'.
+  Proof.
+    intros (S & c & HP & HR & ->) Hb.
+    destruct (post_step_chain a s Fin S c b HP Hb)
+      as (s' & evU & evN & evQ & Fnew & S' & c' & pend & Q0 & pend' & Hstep & HP' & _ & _ & _ & _ & _ & _ & _ & HlF & _ & _).
+    exists s', ((evU ++ evN) ++ evQ), Fnew, (S' ++ rev A). split; [exact Hstep|].
+    exists S', c'. split; [exact HP'|]. split; [apply rooted_app; assumption | reflexivity].
+  Qed.
+
+  (* the LIB block is the last block of A ++ Fin, a beginning of rev V *)
+  Lemma vstatex_rev a Fin A s V : VStateX a Fin A s V ->
+    exists pre pend, A ++ Fin = pre ++ [libblk a Fin] /\ rev V = (A ++ Fin) ++ pend /\
+      In (libblk a Fin) U /\ libref (db s) = bref (libblk a Fin).
+  Proof.
+    intros (S & c & HP & HR & ->).
+    pose proof (po_a U cfg a s Fin S c HP) as Ha. pose proof (po_inv U cfg a s Fin S c HP) as HI.
+    destruct (inv_lib U cfg a s Fin S Ha HI) as (HLU & Hlib).
+    destruct (post_head U cfg U_id U_uniq U_up a s Fin S c HP) as (hd & p & _ & _ & _ & HS & _).
+    assert (Hlast : exists pre, A ++ Fin = pre ++ [libblk a Fin]).
+    { unfold libblk. destruct (rev Fin) as [|t r] eqn:E.
+      - assert (Fin = []) by (rewrite <- (rev_involutive Fin), E; reflexivity). subst Fin.
+        destruct HR as [[-> _]|(_ & F' & HF & _)]; [exists []; reflexivity | discriminate].
+      - assert (EF : Fin = rev r ++ [t]) by (rewrite <- (rev_involutive Fin), E; reflexivity).
+        exists (A ++ rev r). rewrite EF, app_assoc. reflexivity. }
+    destruct Hlast as [pre Hpre]. exists pre, (map eb p). split; [exact Hpre|]. split; [|split; [exact HLU | exact Hlib]].
+    rewrite HS, rev_app_distr, !rev_involutive, app_assoc. reflexivity.
+  Qed.
+
+  (* the head's complete segment around the LIB block *)
+  Lemma vstatex_segment a Fin A s V hd sg : VStateX a Fin A s V -> last_sent s = Some hd ->
+    complete_segment (db s) (bref hd) = Some (sg, true) ->
+    exists lo xL hi, sg = lo ++ xL :: hi /\ seg_blk xL = libblk a Fin /\
+      (forall y, In y hi -> bnum (libblk a Fin) < snum y) /\
+      good_seg sg /\ Forall (fun x => In (seg_blk x) U) sg.
+  Proof.
+    intros (S & c & HP & HR & ->) Hls E.
+    pose proof (po_a U cfg a s Fin S c HP) as Ha. pose proof (po_inv U cfg a s Fin S c HP) as HI.
+    destruct (inv_lib U cfg a s Fin S Ha HI) as (HLU & Hlib).
+    destruct (post_head U cfg U_id U_uniq U_up a s Fin S c HP) as (hd' & p & Hls' & HhU & Hcp & HS & _).
+    rewrite Hls in Hls'. injection Hls' as <-.
+    pose proof (complete_segment_segment_of _ _ _ _ E) as Hso.
+    pose proof (segment_of_chain_to _ _ _ _ Hso) as Hct. cbn [bref ri rn] in Hct.
+    pose proof (i_db U _ _ _ _ _ HI) as Hd.
+    assert (Hlst : exists el, find (ri (libref (db s))) (store (db s)) = Some el).
+    { pose proof (di_num U _ _ Hd) as Hnum. unfold num_of in Hnum.
+      destruct (find (ri (libref (db s))) (store (db s))) as [el|]; [eauto|].
+      rewrite (po_extra U cfg a s Fin S c HP) in Hnum. discriminate. }
+    destruct Hlst as [el Hel].
+    assert (Hin : block_in (bid (libblk a Fin)) sg = true).
+    { apply block_in_spec. pose proof (chain_on_segment (db s) _ _ _ Hcp _ _ Hct el Hel) as H.
+      apply in_map_iff in H as (x & Hx & Hxin). exists x. split; [exact Hxin|]. rewrite Hx, Hlib. reflexivity. }
+    destruct (above_lib_part U cfg U_id U_uniq U_up a s Fin S c HP hd sg true Fin [] Hls E (eq_sym (app_nil_r Fin)) HLU I (Forall_nil _) Hin)
+      as (lo & xL & hi & p' & Hsplit & HbL & _ & _ & _ & _ & _ & _ & Hhi & _).
+    destruct (post_segment U cfg U_id U_uniq U_up a s Fin S c HP hd sg true Hls E) as (Hgood & _ & HsU & _).
+    exists lo, xL, hi. split; [exact Hsplit|]. split; [exact HbL|]. split; [exact Hhi|]. split; [exact Hgood | exact HsU].
   Qed.
 
   (* a hub of a run that is ready *)
